@@ -191,7 +191,7 @@ class TranslatorC(Translator):
                     out = "(~ %s)&%s" % (out, self._size2mask(arg.size))
                 else:
                     out = "bignum_not(%s)" % out
-                    out = "bignum_mask(%s, expr.size)" % out
+                    out = "bignum_mask(%s, %d)" % (out, expr.size)
                 return out
 
             elif expr.op in [
